@@ -77,6 +77,9 @@ func (c *compChild) Run(ctx context.Context) error {
 	g := c.gen
 	if c.active == 0 && c.doneClosed {
 		// like lifecycle.StartStop: the cycle is reset by the Run that follows a finished one
+		if c.spec.Stop == "l" {
+			c.stopCh = make(chan struct{})
+		}
 		c.started = make(chan struct{})
 		c.startedClosed = false
 		c.done = make(chan struct{})
@@ -130,9 +133,15 @@ func (c *compChild) Stop() {
 	c.rec.add("SI%d", c.idx)
 	c.mu.Lock()
 	stopCh, started, done := c.stopCh, c.started, c.done
-	c.stopCh = make(chan struct{}) // Runs invoked after this Stop are not affected by it
+	if c.spec.Stop != "l" {
+		c.stopCh = make(chan struct{}) // free style: Runs invoked after this Stop are not affected by it
+	}
 	c.mu.Unlock()
-	close(stopCh)
+	select {
+	case <-stopCh: // lifecycle style: a Stop before (or during) the Run of this cycle stays in force
+	default:
+		close(stopCh)
+	}
 	sleepMs(c.spec.StopMs)
 	if c.spec.Stop == "l" {
 		select {
@@ -316,7 +325,14 @@ func runCompScenario(sc CompScenario) compResult {
 		for _, op := range sc.Ops {
 			if sc.Sequential {
 				doOp(op)
-				if op.Kind != "reload" {
+				switch {
+				case op.Kind == "cancel" || strings.HasPrefix(op.Kind, "fail:"):
+					// sequential history: let Run finish reacting before the next operation
+					select {
+					case <-runDone:
+					case <-time.After(12 * time.Millisecond):
+					}
+				case op.Kind != "reload":
 					time.Sleep(3 * time.Millisecond)
 				}
 				continue
